@@ -1,8 +1,48 @@
-"""Files generated at check time into <scratch>/harness/gen/."""
+"""Files generated at check time into <scratch>/harness/gen/ (reference tables computed
+independently of the repository; seed-dependent shape parameters)."""
 import os
+
+
+def pi_hex_words(nwords):
+    """First nwords 32-bit words of the fractional part of pi, via Machin's formula on big
+    integers: pi = 16 atan(1/5) - 4 atan(1/239)."""
+    bits = 32 * nwords + 64
+    one = 1 << bits
+
+    def atan_inv(x):
+        # atan(1/x) * one
+        total = 0
+        term = one // x
+        x2 = x * x
+        n = 1
+        sign = 1
+        while term:
+            total += sign * (term // n)
+            term //= x2
+            n += 2
+            sign = -sign
+        return total
+
+    pi = 16 * atan_inv(5) - 4 * atan_inv(239)
+    frac = pi - 3 * one
+    frac >>= 64  # drop guard bits
+    words = []
+    for i in range(nwords):
+        shift = 32 * (nwords - 1 - i)
+        words.append((frac >> shift) & 0xFFFFFFFF)
+    return words
 
 
 def generate(gendir, seed, tier, src):
     with open(os.path.join(gendir, "params.rs"), "w") as f:
         f.write("// generated: seed-dependent shape parameters\n")
         f.write("pub const VERIF_SEED: u64 = %d;\n" % seed)
+    w = pi_hex_words(18 + 1024)
+    assert w[0] == 0x243F6A88 and w[18] == 0xD1310BA6, "pi generator self-test failed"
+    with open(os.path.join(gendir, "pi.rs"), "w") as f:
+        f.write("// generated at check time: hexadecimal digits of the fractional part of pi (Machin, big integers)\n")
+        f.write("pub const REF_P: [u32; 18] = [%s];\n" % ", ".join("0x%08x" % x for x in w[:18]))
+        f.write("pub const REF_S: [[u32; 256]; 4] = [\n")
+        for b in range(4):
+            f.write("  [%s],\n" % ", ".join("0x%08x" % x for x in w[18 + 256 * b: 18 + 256 * (b + 1)]))
+        f.write("];\n")
